@@ -339,7 +339,7 @@ class StmtMixin:
             self.oblige(path, f"inv-entry:{tag}", inv(ctx_of(path, k0)), s)
         # 2. havoc
         p = path.clone()
-        self.havoc_loop_targets(s, p)
+        self.havoc_loop_targets(s, p, spec)
         k = z3.Int(sv.uid(f"k.{tag}"))
         p.assume(k >= 0)
         if is_for:
@@ -387,7 +387,7 @@ class StmtMixin:
                 outs += self.exec_block(s.orelse, pe) if s.orelse else [(NEXT, pe, None)]
         return outs
 
-    def havoc_loop_targets(self, s, p):
+    def havoc_loop_targets(self, s, p, spec=None):
         names, fields, effect_calls = set(), set(), False
         for node in ast.walk(s):
             if node is s and isinstance(s, ast.For):
@@ -410,8 +410,13 @@ class StmtMixin:
                     effect_calls = True
             elif isinstance(node, ast.ExceptHandler) and node.name:
                 names.add(node.name)
+        ltypes = (spec or {}).get("locals", {})
         for n in sorted(names):
-            if n in p.env:
+            if n in ltypes:
+                p.env[n] = sv.mk(ltypes[n], sv.uid(f"hv.{n}"))
+                for w in sv.wf(p.env[n]):
+                    p.assume(w)
+            elif n in p.env:
                 p.env[n] = self.havoc_like(p.env[n], n)
         mods = self.cur_modifies(p) if self.cur_contract is not None and self.frame_depth == 0 else None
         for f in sorted(fields):
